@@ -48,9 +48,13 @@ def main():
             jobs.append(('benign', os.path.basename(d.rstrip('/')), d + 'patch.diff'))
     jobs = [j for j in jobs if filt in j[1]]
     bad = 0
+    table = {'seeds': {}, 'benign': {}}
     with cf.ThreadPoolExecutor(16) as ex:
         for kind, name, res in ex.map(lambda j: run(*j), jobs):
             if kind == 'seed':
+                import re as _re
+                table['seeds'][name] = {p: {'exit': res[p][0], 'rules': sorted(set(_re.findall(r'  (C[0-9]+\.R[0-9a-z]+)  ', ' '.join(res[p][1]))))}
+                                        for p in sorted(res)}
                 own = name.split('-')[0]
                 rc = res.get(own, (0, []))[0]
                 others = sorted(p for p in res if p != own)
@@ -63,6 +67,7 @@ def main():
                 elif rc == 2:
                     print('        ', res[own][1][:2])
             else:
+                table['benign'][name] = {p: res[p][0] for p in sorted(res)}
                 tag = 'ok  ' if not res else 'ALARM'
                 if res:
                     bad += 1
@@ -71,6 +76,8 @@ def main():
                     for l in res[p][1]:
                         print('         %s %s' % (p, l[:260]))
     print('%d job(s), %d not as required' % (len(jobs), bad))
+    if what == 'all' and not filt:
+        json.dump(table, open(V + '/seeded/RESULTS.json', 'w'), indent=1, sort_keys=True)
     sys.exit(1 if bad else 0)
 
 
